@@ -18,6 +18,8 @@
 //   upv:K                  PR_COMMAND_REMOVEPARAMETERS naming PR_NAME_PRIVILEGE_BITS
 //   c:K:WHAT:pat&pat:SESS  client-to-client Message: what-code WHAT, PR_NAME_KEYS (may be empty), PR_NAME_SESSION = SESS
 //                          (a session index -> that session's real id; other text verbatim; '-' = no such field)
+//   io:K:pat&pat:bef=v&bef=v   PR_COMMAND_INSERTORDEREDDATA: parent patterns; each item = (insert-before name or '-', payload)   } harness-only
+//   ro:K:pat=bef&pat=bef   PR_COMMAND_REORDERDATA: child pattern -> move-before name                                } stream "ordered"
 //   b:K:sub+sub            PR_COMMAND_BATCH of the commands above written with '~' for ':' and without the session index
 //   x:K:MODE:sub+sub       (last op) client K writes the byte stream of these Messages and its connection is cut after B bytes, for
 //                          every B in 0..total (MODE=all) or around every Message boundary (MODE=some); each B is a fresh run of the
@@ -352,6 +354,33 @@ struct Run
          (void) m()->AddString(PR_NAME_KEYS, PR_NAME_PRIVILEGE_BITS);
          return m;
       }
+      if (code == "io")
+      {
+         MessageRef m = MkMsg(PR_COMMAND_INSERTORDEREDDATA);
+         std::vector<std::string> pats = (fs.size() > 0 && !fs[0].empty()) ? Split(fs[0], '&') : std::vector<std::string>();
+         for (size_t i=0; i<pats.size(); i++) (void) m()->AddString(PR_NAME_KEYS, RealPattern(pats[i]).c_str());
+         std::vector<std::string> items = (fs.size() > 1 && !fs[1].empty()) ? Split(fs[1], '&') : std::vector<std::string>();
+         for (size_t i=0; i<items.size(); i++)
+         {
+            const size_t eq = items[i].find('=');
+            const std::string bef = items[i].substr(0, eq);
+            MessageRef d = MkMsg(0);
+            if (eq != std::string::npos) (void) d()->AddInt32("v", (int32) atol(items[i].c_str()+eq+1));
+            (void) m()->AddMessage(bef.c_str(), d);
+         }
+         return m;
+      }
+      if (code == "ro")
+      {
+         MessageRef m = MkMsg(PR_COMMAND_REORDERDATA);
+         std::vector<std::string> items = (fs.size() > 0 && !fs[0].empty()) ? Split(fs[0], '&') : std::vector<std::string>();
+         for (size_t i=0; i<items.size(); i++)
+         {
+            const size_t eq = items[i].find('=');
+            (void) m()->AddString(RealPattern(items[i].substr(0, eq)).c_str(), (eq == std::string::npos) ? "" : items[i].substr(eq+1).c_str());
+         }
+         return m;
+      }
       if (code == "c")
       {
          MessageRef m = MkMsg(CodeOf(fs.size() > 0 ? fs[0] : std::string("0")));
@@ -435,6 +464,7 @@ struct Run
                   l1 << "B" << m->what << "/" << (rej() ? itos(rej()->what) : std::string("?"));
                }
                else if ((m->what == PR_RESULT_PONG)||(m->what == PR_RESULT_PARAMETERS)||(m->what == PR_RESULT_DATATREES)) l1 << "R" << m->what;
+               else if (m->what == PR_RESULT_INDEXUPDATED) l1 << "I" << m->GetNumNames();
                else
                {
                   const String * ss = NULL;
@@ -477,7 +507,8 @@ struct Run
    std::string NodeStr(DataNode & n, long withoutScript)
    {
       String np; (void) n.GetNodePath(np);
-      return Canon(np()) + "=" + Payload(n.GetData()()) + "{" + SubsOf(n, withoutScript) + "}";
+      const std::string ix = IdxStr(n);
+      return Canon(np()) + "=" + Payload(n.GetData()()) + "{" + SubsOf(n, withoutScript) + "}" + (ix.empty() ? std::string("") : ("[" + ix + "]"));
    }
 
    // a session's parameter Message in canonical text (field order kept; session ids inside SUBSCRIBE: names canonicalised)
